@@ -172,19 +172,55 @@ Definition supports (n k : nat) : list (list nat) :=
   map (map Z.to_nat)
       (k_walk (S (Z.to_nat (binomZ (Z.of_nat n) (Z.of_nat k)))) (Z.of_nat n) (zrange (Z.of_nat k))).
 
-(* _support_enumeration_gen *)
-Definition support_enumeration (m n : nat) (A Bt : mat) : list (list T * list T) :=
+(* _support_enumeration_gen, with the acceptance test as a parameter *)
+Definition support_enumeration_with (indiff : mat -> nat -> list nat -> list nat -> option (list T))
+           (m n : nat) (A Bt : mat) : list (list T * list T) :=
   flat_map (fun k =>
     flat_map (fun s0 =>
       flat_map (fun s1 =>
-        match indiff_mixed_action A m s0 s1 with
+        match indiff A m s0 s1 with
         | None => []
         | Some a1 =>
-          match indiff_mixed_action Bt n s1 s0 with
+          match indiff Bt n s1 s0 with
           | None => []
           | Some a0 => [(scatter m s0 a0, scatter n s1 a1)]
           end
         end) (supports n k)) (supports m k)) (seq 1 (Nat.min m n)).
+Definition support_enumeration := support_enumeration_with indiff_mixed_action.
+
+(* separation analysis (not code of the repository): the same test with the two thresholds moved by
+   e1 (positivity: reject when x_i <= e1) and e2 (best response: reject when payoff > val + e2).
+   e1 = e2 = 0 is the code's test; (eps, -eps) accepts only what is accepted with a margin, (-eps, eps)
+   everything that rounding could make the floating-point code accept. *)
+Definition indiff_margin (e1 e2 : T) (P : mat) (mrows : nat) (own opp : list nat) : option (list T) :=
+  let k := length own in
+  let '(M, b) := indiff_system P own opp in
+  match solve_vec_checked (S k) M b with
+  | None => None
+  | Some out =>
+    if existsb (fun i => nleb (vget out i) e1) (seq 0 k) then None
+    else
+      let val := vget out k in
+      if k =? mrows then Some (firstn k out)
+      else if existsb (fun i => negb (existsb (Nat.eqb i) own) &&
+                                nltb (nadd val e2) (fold_left (fun acc j => nadd acc (nmul (get P i (nth j opp 0)) (vget out j)))
+                                                    (seq 0 k) nzero))
+                      (seq 0 mrows)
+           then None else Some (firstn k out)
+  end.
+Definition support_enumeration_margin (e1 e2 : T) := support_enumeration_with (indiff_margin e1 e2).
+
+(* ------------------------------------------------------------ exact Nash test (specification side, not code of
+   the repository): x, y probability vectors, no pure action earns more than the mixed action played *)
+Definition nash_checkb (m n : nat) (A Bt : mat) (x y : list T) : bool :=
+  let rowp := fun i => nsum n (fun j => nmul (get A i j) (vget y j)) in
+  let colp := fun j => nsum m (fun i => nmul (vget x i) (get Bt j i)) in
+  let u0 := nsum m (fun i => nmul (vget x i) (rowp i)) in
+  let u1 := nsum n (fun j => nmul (colp j) (vget y j)) in
+  (length x =? m) && (length y =? n) &&
+  forallb (fun i => nleb nzero (vget x i)) (seq 0 m) && neqb (nsum m (vget x)) none_ &&
+  forallb (fun j => nleb nzero (vget y j)) (seq 0 n) && neqb (nsum n (vget y)) none_ &&
+  forallb (fun i => nleb (rowp i) u0) (seq 0 m) && forallb (fun j => nleb (colp j) u1) (seq 0 n).
 
 (* ------------------------------------------------------------ vertex enumeration (bit masks) *)
 (* _ints_arr_to_bits *)
